@@ -717,7 +717,7 @@ enum Sweep {
     /// position `pos` ranges over the whole value list and "absent": all pairs, all order pairs
     Unequal { bg: Vec<usize>, pos: usize },
     /// merge(A,B) vs merge(B,A) through `apply_remote_delta`, (v,w) over base x base at `pos`
-    MergeOrder { bg: Vec<usize>, pos: usize },
+    MergeOrder { bg: Vec<usize>, pos: usize, vi: usize },
 }
 
 #[derive(Clone, Debug)]
@@ -829,8 +829,8 @@ fn run_item(it: &Item, ctx: &Ctx) -> ItemResult {
                 }
             }
         }
-        Sweep::MergeOrder { bg, pos } => {
-            for v in &ctx.base {
+        Sweep::MergeOrder { bg, pos, vi } => {
+            for v in &ctx.base[*vi..*vi + 1] {
                 for w in &ctx.base {
                     let mut sa: Vec<ReplicationDelta> = Vec::new();
                     let mut sb: Vec<ReplicationDelta> = Vec::new();
@@ -987,6 +987,7 @@ struct Once {
     fin: (OrderSig, OrderSig),
     rounds: Option<usize>,
     initially_divergent: bool,
+    final_states_equal: bool,
     causes: Vec<(String, String)>,
 }
 
@@ -1146,10 +1147,12 @@ fn run_once(cfg: &SyncCfg, ha: &[WOp], hb: &[WOp], limit: usize) -> Result<Once,
             }
         }
     }
-    Ok(Once { init, fin, rounds, initially_divergent, causes })
+    let final_states_equal = sa == sb;
+    Ok(Once { init, fin, rounds, initially_divergent, final_states_equal, causes })
 }
 
 const SYNC_MAX_ATTEMPTS: usize = 3000;
+const SYNC_MIN_ATTEMPTS: usize = 4;
 
 struct ScenResult {
     debug: String,
@@ -1164,8 +1167,9 @@ struct ScenResult {
 }
 
 /// One scenario = (config, history of node0, history of node1, limit); repeated on fresh nodes until
-/// every combination of initial iteration orders and every combination of final per-bucket
-/// iteration orders (for the final key sets seen) has been observed.
+/// every combination of initial iteration orders (full order when the limit can truncate, else per
+/// bucket) has been observed and, for runs ending with equal states on both sides, every combination
+/// of final per-bucket iteration orders.
 fn run_scenario(cfg: &SyncCfg, ha: &[WOp], hb: &[WOp], limit: usize) -> ScenResult {
     let mut init_seen: BTreeSet<(Vec<(usize, Vec<String>)>, Vec<(usize, Vec<String>)>, Vec<String>, Vec<String>)> = BTreeSet::new();
     let mut fin_seen: BTreeMap<(Vec<String>, Vec<String>), (usize, BTreeSet<(OrderSig, OrderSig)>)> = BTreeMap::new();
@@ -1212,15 +1216,15 @@ fn run_scenario(cfg: &SyncCfg, ha: &[WOp], hb: &[WOp], limit: usize) -> ScenResu
             key.3.clear();
         }
         init_seen.insert(key);
-        let fk = |o: &OrderSig| -> Vec<String> {
-            let mut k: Vec<String> = o.iter().flat_map(|(_, ks)| ks.iter().cloned()).collect();
+        // the final iteration orders decide the verdict only when both sides hold the same state (then
+        // the digests must agree): every combination of per-bucket orders of the two equal maps
+        if once.final_states_equal {
+            let mut k: Vec<String> = once.fin.0.iter().flat_map(|(_, ks)| ks.iter().cloned()).collect();
             k.sort();
-            k
-        };
-        let (ka, kb) = (fk(&once.fin.0), fk(&once.fin.1));
-        let want_fin = orders_possible(&ka, cfg.depth) * orders_possible(&kb, cfg.depth);
-        let e = fin_seen.entry((ka, kb)).or_insert((want_fin, BTreeSet::new()));
-        e.1.insert(once.fin.clone());
+            let w = orders_possible(&k, cfg.depth);
+            let e = fin_seen.entry((k.clone(), k)).or_insert((w * w, BTreeSet::new()));
+            e.1.insert(once.fin.clone());
+        }
         *rounds_hist.entry(once.rounds.map(|r| r.to_string()).unwrap_or("never".into())).or_default() += 1;
         let mut sigs: Vec<String> = once.causes.iter().map(|c| c.0.clone()).collect();
         sigs.sort();
@@ -1229,7 +1233,7 @@ fn run_scenario(cfg: &SyncCfg, ha: &[WOp], hb: &[WOp], limit: usize) -> ScenResu
         for (s, d) in once.causes {
             causes.entry(s).or_insert(d);
         }
-        if init_seen.len() >= want_init && fin_seen.values().all(|(w, s)| s.len() >= *w) {
+        if attempts >= SYNC_MIN_ATTEMPTS && init_seen.len() >= want_init && fin_seen.values().all(|(w, s)| s.len() >= *w) {
             covered = true;
             break;
         }
@@ -1398,6 +1402,16 @@ fn replay(r: &Value) -> ! {
 // main
 // ------------------------------------------------------------------------------------------------
 
+fn shuffle<T>(v: &mut [T], seed: u64) {
+    let mut x = 0x9E3779B97F4A7C15u64 ^ seed.wrapping_mul(0x2545F4914F6CDD1D) | 1;
+    for i in (1..v.len()).rev() {
+        x ^= x << 13;
+        x ^= x >> 7;
+        x ^= x << 17;
+        v.swap(i, (x % (i as u64 + 1)) as usize);
+    }
+}
+
 fn assignments(n: usize, base: usize) -> Vec<Vec<usize>> {
     let mut out: Vec<Vec<usize>> = vec![vec![]];
     for _ in 0..n {
@@ -1474,22 +1488,15 @@ fn main() {
             for pos in 0..n {
                 items.push(Item { depth: *depth, keys: keys.clone(), sweep: Sweep::Unequal { bg: bg.clone(), pos } });
                 if g == 0 {
-                    items.push(Item { depth: *depth, keys: keys.clone(), sweep: Sweep::MergeOrder { bg: bg.clone(), pos } });
+                    for vi in 0..base.len() {
+                        items.push(Item { depth: *depth, keys: keys.clone(), sweep: Sweep::MergeOrder { bg: bg.clone(), pos, vi } });
+                    }
                 }
             }
         }
     }
-    if args.seed != 0 {
-        // VERIF_SEED only permutes visiting order
-        let n = items.len();
-        let mut x = args.seed | 1;
-        for i in (1..n).rev() {
-            x ^= x << 13;
-            x ^= x >> 7;
-            x ^= x << 17;
-            items.swap(i, (x % (i as u64 + 1)) as usize);
-        }
-    }
+    // visiting order: a fixed pseudo-random permutation (load balance), further permuted by VERIF_SEED
+    shuffle(&mut items, args.seed);
     // quick: the value list of the unequal sweep is the base set for multi-key sets and the full
     // closure for single-key sets; thorough: the full closure everywhere
     let ctx_full = Ctx { core: core.clone(), base: base.clone(), list: all.clone(), recipes: recipes.clone() };
@@ -1587,6 +1594,7 @@ fn main() {
     if part.as_deref() == Some("digest") {
         scens.clear();
     }
+    shuffle(&mut scens, args.seed);
     let t1 = rep.elapsed_s();
     let sres = par::par_map(&scens, |_, s| run_scenario(&cfgs[s.cfg], &s.ha, &s.hb, s.limit));
     let t_sync = rep.elapsed_s() - t1;
@@ -1598,7 +1606,9 @@ fn main() {
     let mut rounds_hist: BTreeMap<String, u64> = BTreeMap::new();
     let mut per_cfg: BTreeMap<String, BTreeMap<String, u64>> = BTreeMap::new();
     let mut sync_samples: Vec<Value> = Vec::new();
-    for (s, r) in scens.iter().zip(&sres) {
+    let mut sidx: Vec<usize> = (0..scens.len()).collect();
+    sidx.sort_by_key(|&i| (scens[i].ha.len() + scens[i].hb.len(), scens[i].cfg, scens[i].limit, scens[i].ha.clone(), scens[i].hb.clone()));
+    for (s, r) in sidx.iter().map(|&i| (&scens[i], &sres[i])) {
         sync_runs += r.attempts as u64;
         if r.nontrivial {
             sync_nontrivial += 1;
